@@ -115,6 +115,18 @@ claim("C11", "Coq proof (frame -> dictionary exactness, memory invariant over an
       TRUST + " Frame values are members of the search space (as the property states).",
       "DESIGN.md section 5, C11")
 
+claim("C16", "Coq proof (number theory of the orbit in Z/|S|, mixed-radix bijections, pigeonhole) + exhaustive correspondence",
+      "Theorems C16_diag_covers / C16_orth_covers (Coq, closed): for EVERY tuple of dimension sizes (all >= 1, any number of "
+      "dimensions), every step_size dividing |S| and every float guess d0 >= 1 in get_direction, the first |S| iteration positions "
+      "are produced without error, are pairwise distinct, lie in the box, hence visit every point exactly once; proved from "
+      "gcd(direction,|S|)=1 (Gauss), the closed form of the pass/pointer recurrence, injectivity of both decodings, and a "
+      "pigeonhole over the enumerated box. Tied to /repo by K-units (grid_move of both back-ends for every pointer / trial, "
+      "get_direction) over all shapes with |S| <= bound in 1-4 dims x every dividing step, and an S-unit comparing the real "
+      "GridSearchOptimizer's iteration positions with the model's run; the monitor counts distinct positions.",
+      TRUST + " Without constraints (as the property states); round(|S|**(1/n)) is an oracle input recomputed by the harness; "
+      "orthogonal's int(x / dim) float division is modelled as integer division (exact below 2^53).",
+      "DESIGN.md section 5, C16")
+
 
 def main():
     props = [json.loads(l) for l in open(os.path.join(VERIF, "properties.jsonl"))]
